@@ -636,6 +636,13 @@ class Constructs(abstract.Container):
         if key is None:
             # Create a new construct identifier
             key = self.new_identifier(construct_type)
+        elif self._construct_type.get(key, construct_type) != construct_type:
+            raise ValueError(
+                f"Can't set {construct!r}: Construct identifier {key!r} "
+                "is in use by a "
+                f"{self._construct_type_description(self._construct_type[key])}"
+                " construct"
+            )
 
         if construct_type in self._array_constructs:
             # ---------------------------------------------------------
